@@ -8,7 +8,14 @@ Sub-checks
   fock_vs_ref          Gaussian programs on the Fock simulator vs refsim: quadrature moments read with
                        fockref and photon-number probabilities vs thewalrus, under a truncation guard
   fock_mzgate          MZgate special cases (dagger, phi_in = 0) native on fock vs refsim  (finding F3)
-  bosonic_vs_fock      non-Gaussian preparations (Fock, cat) followed by Gaussian gates: bosonic vs fock
+  bosonic_vs_fock      non-Gaussian preparations (Fock, cat of any parity/representation, GKP) in any mode order, interleaved
+                       with Gaussian gates: bosonic vs fock
+
+Input classes added by the generator audit (all sub-checks unless noted): registers that lose (Del) and gain (New) modes in
+the middle of the program, so that the used modes are not a contiguous prefix and the simulators have to re-map indices;
+ONE Program object (operation objects shared between equal commands) handed to every engine; squeezing parameters that are
+tiny but not zero; Gaussian(V) without means / on a single mode; cat states with odd / fractional parity, any phase and the
+real representation, GKP states, preparations that are not the first commands of the program (bosonic_vs_fock).
 """
 from __future__ import annotations
 
@@ -19,7 +26,8 @@ from vf import fockref, gen, refsim, sfrun, spec
 from vf.core import Sub
 
 RULE = ("Hypothesis-generated programs (1..4 modes, 1..8 commands, every ordered target choice, parameters incl. 0, "
-        "negative values and multiples of pi/2, optional .H, hbar in {0.5,1,2,3.3}, cutoff 5..11, pure/mixed); a case is "
+        "negative values, multiples of pi/2 and tiny non-zero squeezing, optional .H, optional Del / New in the middle of the "
+        "program, fresh Program per engine or one shared Program, hbar in {0.5,1,2,3.3}, cutoff 3..12, pure/mixed); a case is "
         "non-trivial when >=2 independent computations of the state were compared and the program has a two-mode "
         "operation, or a channel/preparation on a register of >=2 modes; distinct = distinct JSON")
 ASSUMPTIONS = [
@@ -29,9 +37,14 @@ ASSUMPTIONS = [
     "< 1e-5 below the cutoff (computed by the oracle with thewalrus), tolerance 5e-4 + 50*(1-trace)",
     "thewalrus.quantum.probabilities is trusted as the Fock representation of a Gaussian state",
     "PassiveChannel(T) acts as a -> T a (same convention as Interferometer; its docstring is ambiguous)",
+    "Del | q[k] traces mode k out (docstring of ops._Delete): the returned state is compared with the reference reduced to the "
+    "modes still alive, in ascending index order; New() appends vacuum modes",
+    "bosonic vs fock: 2e-2 when a Fock preparation is present (bosonic Fock states are approximations with r = 0.05), 5e-3 with a "
+    "GKP state (cutoff 12, epsilon >= 0.5), 2e-3 otherwise (cat states are exact in both representations)",
 ]
 REQUIRED_LABELS = {"all": ["descending_pair", "second_target_mode0", "mixed_rep", "pure_rep", "thermal_loss_not_mode0",
-                           "dagger", "param_zero", "param_pi_multiple", "backend:gaussian", "backend:bosonic", "backend:fock"]}
+                           "dagger", "param_zero", "param_pi_multiple", "backend:gaussian", "backend:bosonic", "backend:fock",
+                           "deleted_mode", "new_mode", "one_program_all_engines", "shared_operation_object", "tiny_squeezing"]}
 
 ALPH_G = ["Dgate", "Sgate", "Rgate", "BSgate", "S2gate", "MZgate", "Xgate", "Zgate", "Pgate", "CXgate", "CZgate",
           "Fouriergate", "LossChannel", "Vacuum", "Coherent", "Squeezed", "DisplacedSqueezed", "Thermal"]
@@ -50,24 +63,216 @@ def _scale(V):
 
 
 def _nontrivial(case):
-    ops_ = case["ops"]
+    ops_ = _plain(case["ops"])
     return gen.has_two_mode(ops_) or (case["n"] >= 2 and any(s[0] in gen.CHANNELS or s[0] in gen.PREPS for s in ops_))
+
+
+# ---------------------------------------------------------------------------------------------
+# registers that change on the way (Del / New), one Program for all engines
+# ---------------------------------------------------------------------------------------------
+META = ("Del", "New")  # op specs ["Del", [], [modes...], {}] and ["New", [k], [], {}]
+SQ_INDEX = {"Sgate": 0, "Squeezed": 0, "S2gate": 0, "DisplacedSqueezed": 2}  # position of the squeezing magnitude
+TINY = [1e-6, -1e-6, 1e-4, -1e-4, 3e-8, 1e-3]
+
+
+def _plain(ops_):
+    return [s for s in ops_ if s[0] not in META]
+
+
+def _layout(n, ops_):
+    """(number of modes ever allocated, ascending list of the modes alive after ops_).  Indices are never re-used."""
+    total, alive = n, list(range(n))
+    for s in ops_:
+        if s[0] == "New":
+            alive = alive + list(range(total, total + int(s[1][0])))
+            total += int(s[1][0])
+        elif s[0] == "Del":
+            alive = [m for m in alive if m not in s[2]]
+    return total, alive
+
+
+def _peak(n, ops_):
+    """largest number of modes alive at the same time"""
+    return max(len(_layout(n, ops_[:k])[1]) for k in range(len(ops_) + 1))
+
+
+def _build(n, ops_, share):
+    """like spec.build_program, plus New(); with `share`, commands with equal (name, parameters, flags) use ONE operation
+    object (g = Sgate(r, phi).H ; g | q[0] ; g | q[1])"""
+    import json
+
+    import strawberryfields as sf
+    from strawberryfields import ops
+
+    prog = sf.Program(n)
+    made = {}
+    with prog.context as q:
+        regs = list(q)
+        for s in ops_:
+            name, params, modes = s[0], s[1], s[2]
+            flags = s[3] if len(s) > 3 else {}
+            if name == "New":
+                regs += list(ops.New(int(params[0])))
+                continue
+            key = json.dumps([name, params, flags], sort_keys=True)
+            if share and key in made:
+                op = made[key]
+            else:
+                op = made[key] = spec.make_op(ops, name, params, flags)
+            tgt = tuple(regs[m] for m in modes)
+            op | (tgt if len(tgt) != 1 else tgt[0])  # pylint: disable=expression-not-assigned
+    return prog
+
+
+def _runner(case, hbar, ops_=None):
+    """run(backend, cutoff, pure) -> Result.  Default: a fresh Program per engine.  case['share']: ONE Program object is built
+    and handed to every engine, which is how a user compares simulators; nothing in a run may leak into the next one."""
+    n, share = case["n"], bool(case.get("share", 0))
+    ops_ = case["ops"] if ops_ is None else ops_
+    own = share or any(s[0] == "New" for s in ops_)
+    cache = {}
+
+    def run(be, cutoff=6, pure=True):
+        prog = None
+        if own:
+            prog = cache.get("prog") if share else None
+            if prog is None:
+                with sfrun.HbarCtx(hbar):
+                    prog = cache["prog"] = _build(n, ops_, share)
+        return sfrun.run(be, n, ops_, hbar, cutoff, pure, prog=prog)
+
+    return run
+
+
+def _ref(n, ops_, hbar):
+    """reference state on all modes ever allocated (a deleted mode is traced out = reset to vacuum and ignored; a new mode is
+    vacuum from the start) and the list of modes alive at the end"""
+    total, alive = _layout(n, ops_)
+    return spec.ref_run(total, [s for s in ops_ if s[0] != "New"], hbar), alive
+
+
+def _meta_labels(case):
+    n, ops_ = case["n"], case["ops"]
+    labs = set()
+    alive, total, deleted = list(range(n)), n, False
+    for s in ops_:
+        if s[0] == "Del":
+            labs.add("deleted_mode")
+            if len(s[2]) == 2:
+                labs.add("del_two_modes" + ("_descending" if s[2][0] > s[2][1] else ""))
+            alive = [m for m in alive if m not in s[2]]
+            if any(a > min(s[2]) for a in alive):
+                labs.add("del_not_last")  # a surviving mode changes its internal position
+            deleted = True
+        elif s[0] == "New":
+            labs.add("new_mode")
+            if deleted:
+                labs.add("new_after_del")
+            alive = alive + [total]
+            total += 1
+        else:
+            if deleted and len(s[2]) >= 2:
+                labs.add("two_mode_op_after_del")
+            if s[0] in SQ_INDEX and 0 < abs(s[1][SQ_INDEX[s[0]]]) <= 1e-3:
+                labs.add("tiny_squeezing")
+            if s[0] == "Gaussian":
+                labs.add("gaussian_no_means" if len(s[1]) < 2 else "gaussian_means")
+                if len(s[2]) == 1:
+                    labs.add("gaussian_one_mode")
+    if case.get("share"):
+        labs.add("one_program_all_engines")
+        keys = [repr([s[0], s[1], s[3] if len(s) > 3 else {}]) for s in _plain(ops_)]
+        if len(set(keys)) < len(keys):
+            labs.add("shared_operation_object")
+    return sorted(labs)
+
+
+@st.composite
+def program(draw, n, alphabet, energy, min_len, max_len, max_alive, meta, **kw):
+    """operation list over a register that may change on the way: segments of ordinary operations on the modes alive at that
+    point, separated by `Del` of one or two alive modes (listed in any order) or `New(1)`; mode indices are never re-used, so
+    after a Del the used modes are no contiguous prefix.  `meta` False: fixed register (as before the audit)."""
+    if max_alive < 2 or not meta:
+        return draw(gen.op_list(n, alphabet, energy, min_len, max_len, **kw))
+    alive, total, out = list(range(n)), n, []
+
+    def segment(lo, hi):
+        seg = draw(gen.op_list(len(alive), alphabet, energy, lo, hi, **kw))
+        for s in seg:
+            s[2] = [alive[m] for m in s[2]]
+        return seg
+
+    # the first segment has to build the correlations that a later Del / New can get wrong: longer where that is cheap (phase space),
+    # and never without an operation that couples two modes
+    out += segment(2, max(2, 3 * max_len // 4)) if energy == "ps" else segment(1, max(1, max_len // 2))
+    two = [a for a in alphabet if a in gen.TWO_MODE]
+    if len(alive) >= 2 and two and not gen.has_two_mode(out):
+        g = draw(gen.op_spec(len(alive), two, energy, **kw))
+        g[2] = [alive[m] for m in g[2]]
+        out.append(g)
+    for _ in range(draw(st.integers(1, 2))):
+        kinds = (["del"] if len(alive) >= 2 else []) + (["new"] if len(alive) < max_alive else [])
+        if not kinds:
+            break
+        if draw(st.sampled_from(kinds)) == "del":
+            gone = list(draw(st.permutations(alive))[:draw(st.sampled_from([1, 1, 2, 1])) if len(alive) >= 3 else 1])
+            out.append(["Del", [], gone, {}])
+            alive = [m for m in alive if m not in gone]
+        else:
+            out.append(["New", [1], [], {}])
+            alive = alive + [total]
+            total += 1
+        out += segment(2, max(2, max_len // 2))  # enough operations on the changed register to meet each kind of gate
+    return out
+
+
+@st.composite
+def special_squeezing(draw, ops_, fock):
+    """every fourth program: one squeezing magnitude (Sgate, Squeezed, S2gate, DisplacedSqueezed) is tiny but not zero"""
+    idx = [i for i, s in enumerate(ops_) if s[0] in SQ_INDEX]
+    if idx and draw(st.integers(0, 3)) == 0:
+        s = ops_[draw(st.sampled_from(idx))]
+        s[1][SQ_INDEX[s[0]]] = draw(st.sampled_from(TINY))
+    # (finding F64, fixed: the Fock-basis DisplacedSqueezed vector was not normalised for small non-zero squeezing; generated again)
+    return ops_
+
+
+@st.composite
+def shared(draw, n, ops_):
+    """share flag (every third case) and, with it, up to two gates of the program repeated on other targets, so that one
+    operation object is applied several times"""
+    if draw(st.integers(0, 2)) != 0:
+        return 0
+    for _ in range(draw(st.integers(0, 2))):
+        gates = [i for i, s in enumerate(ops_) if s[0] in gen.GATES]
+        if not gates:
+            break
+        i = draw(st.sampled_from(gates))
+        src = ops_[i]
+        pos = draw(st.integers(i + 1, len(ops_)))
+        alive = _layout(n, ops_[:pos])[1]
+        if len(alive) >= len(src[2]):
+            ops_.insert(pos, [src[0], list(src[1]), list(draw(st.permutations(alive))[:len(src[2])]), dict(src[3])])
+    return 1
 
 
 # ---------------------------------------------------------------------------------------------
 # ps_vs_ref
 # ---------------------------------------------------------------------------------------------
 @st.composite
-def matrix_op(draw, n, hbar):
-    """one matrix-parametrised operation on k >= 2 modes listed in any order (cyclic listings of >= 3 modes included):
-    Gaussian(V, r) preparation (native and decomposed), Interferometer(U), GaussianTransform(S)"""
-    k = draw(st.integers(2, n))
-    modes = list(draw(st.permutations(list(range(n))))[:k])
-    what = draw(st.sampled_from(["Gaussian", "Gaussian", "Interferometer", "GaussianTransform"]))
+def matrix_op(draw, alive, hbar, all_gaussian=False):
+    """one matrix-parametrised operation on k >= 1 of the alive modes listed in any order (cyclic listings of >= 3 modes
+    included): Gaussian(V[, r]) preparation (native and decomposed, with and without a vector of means, all Williamson
+    classes), Interferometer(U), GaussianTransform(S)"""
+    k = len(alive) if all_gaussian else draw(st.integers(2 if len(alive) >= 2 and draw(st.integers(0, 3)) else 1, len(alive)))
+    modes = list(draw(st.permutations(alive))[:k])
+    what = "Gaussian" if all_gaussian else draw(st.sampled_from(["Gaussian", "Gaussian", "Interferometer", "GaussianTransform"]))
     if what == "Gaussian":
-        _, V = draw(gen.covariance(k, hbar, ["pure_generic", "mixed_generic", "mixed_diag", "pure_blockdiag"]))
-        r = [draw(gen.fl(-1.0, 1.0)) * np.sqrt(hbar / 2) for _ in range(2 * k)]
-        return ["Gaussian", [spec.enc_matrix(V), spec.enc_vec(r)], modes, {"kw": {"decomp": draw(st.booleans())}}]
+        _, V = draw(gen.covariance(k, hbar, ["pure_generic", "mixed_generic", "mixed_diag", "pure_blockdiag", "thermal", "pure_diag"]))
+        params = [spec.enc_matrix(V)]
+        if draw(st.integers(0, 3)):
+            params.append(spec.enc_vec([draw(gen.fl(-1.0, 1.0)) * np.sqrt(hbar / 2) for _ in range(2 * k)]))
+        return ["Gaussian", params, modes, {"kw": {"decomp": draw(st.booleans())}}]
     if what == "Interferometer":
         return ["Interferometer", [spec.enc_matrix(draw(gen.unitary(k, ["haar"]))[1])], modes, {}]
     return ["GaussianTransform", [spec.enc_matrix(draw(gen.symplectic(k, 0.5, ["generic"]))[2])], modes, {}]
@@ -75,22 +280,32 @@ def matrix_op(draw, n, hbar):
 
 @st.composite
 def ps_case(draw):
-    n = draw(st.integers(1, 4))
+    meta = draw(st.integers(0, 2)) == 0  # every third program changes its register on the way; those start with more modes
+    n = draw(st.sampled_from([3, 4, 2, 1, 4, 3])) if meta else draw(st.integers(1, 4))
     hbar = draw(st.sampled_from(HBARS))
-    ops_ = draw(gen.op_list(n, ALPH_G2, "ps", 1, 8))
-    if n >= 2 and draw(st.integers(0, 3)) == 0:
-        ops_.insert(draw(st.integers(0, len(ops_))), draw(matrix_op(n, hbar)))
-    return {"n": n, "hbar": hbar, "ops": ops_}
+    ops_ = draw(program(n, ALPH_G2, "ps", 1, 8, max_alive=4, meta=meta))
+    if meta and n >= 2 and draw(st.booleans()):
+        # start from a generic correlated Gaussian state of the whole register: every later Del / New acts on modes whose N and M
+        # matrices are full and complex
+        ops_.insert(0, draw(matrix_op(list(range(n)), hbar, all_gaussian=True)))
+    if _layout(n, ops_)[0] >= 2 and draw(st.integers(0, 3)) == 0:
+        pos = draw(st.integers(0, len(ops_)))
+        ops_.insert(pos, draw(matrix_op(_layout(n, ops_[:pos])[1], hbar)))
+    ops_ = draw(special_squeezing(ops_, fock=False))
+    # (finding F65, fixed: Pgate(s) was decomposed with r = acosh(sqrt(1 + s^2/4)), no correct digit for |s| around 1e-8..1e-7)
+    return {"n": n, "hbar": hbar, "ops": ops_, "share": draw(shared(n, ops_))}
 
 
 def check_ps(ctx, case):
     n, hbar, ops_ = case["n"], case["hbar"], case["ops"]
-    ref = spec.ref_run(n, ops_, hbar)
-    labels = gen.labels_of(ops_)
+    ref, alive = _ref(n, ops_, hbar)
+    mu_r, V_r = ref.reduced(alive)
+    labels = gen.labels_of(_plain(ops_)) + _meta_labels(case)
+    run = _runner(case, hbar)
     got = {}
     for be in ("gaussian", "bosonic"):
         try:
-            res = sfrun.run(be, n, ops_, hbar)
+            res = run(be)
         except sfrun.Rejected:
             labels.append("rejected:" + be)
             continue
@@ -104,7 +319,9 @@ def check_ps(ctx, case):
     ctx.note(case, nontrivial=len(got) >= 1 and _nontrivial(case), labels=labels)
     tol = 1e-8 * _scale(ref.V)
     for be, (mu, V) in got.items():
-        dm, dv = float(np.max(np.abs(mu - ref.mu))), float(np.max(np.abs(V - ref.V)))
+        if mu.shape != mu_r.shape:
+            return ctx.fail("%s.mode_count" % be, "%s returns %d modes, the register has %d (%s)" % (be, len(mu) // 2, len(alive), alive))
+        dm, dv = float(np.max(np.abs(mu - mu_r))), float(np.max(np.abs(V - V_r)))
         if dm > tol or dv > tol:
             return ctx.fail("%s_vs_ref.%s" % (be, _culprit(case, be, hbar)), "%s differs from the reference: |dmu|=%.3g |dV|=%.3g (tol %.1g)" % (be, dm, dv, tol))
     if len(got) == 2:
@@ -120,14 +337,15 @@ def _culprit(case, be, hbar):
     n, ops_ = case["n"], case["ops"]
     for k in range(1, len(ops_) + 1):
         try:
-            ref = spec.ref_run(n, ops_[:k], hbar)
-            res = sfrun.run(be, n, ops_[:k], hbar)
+            ref, alive = _ref(n, ops_[:k], hbar)
+            mu_r, V_r = ref.reduced(alive)
+            res = _runner({"n": n}, hbar, ops_[:k])(be)
             mu, V, _ = sfrun.moments_of(res.state, be, hbar)
-            if max(np.max(np.abs(mu - ref.mu)), np.max(np.abs(V - ref.V))) > 1e-7 * _scale(ref.V):
+            if max(np.max(np.abs(mu - mu_r)), np.max(np.abs(V - V_r))) > 1e-7 * _scale(ref.V):
                 return ops_[k - 1][0]
         except Exception:  # pylint: disable=broad-except
             return ops_[k - 1][0] + ".exc"
-    return "unknown"
+    return "shared_program" if case.get("share") else "unknown"
 
 
 # ---------------------------------------------------------------------------------------------
@@ -135,30 +353,35 @@ def _culprit(case, be, hbar):
 # ---------------------------------------------------------------------------------------------
 @st.composite
 def fock_pm_case(draw):
-    n = draw(st.integers(1, 3))
+    meta = draw(st.integers(0, 2)) == 0  # every third program changes its register on the way; half of those start with 3 modes
+    n = draw(st.sampled_from([3, 2, 3, 1])) if meta else draw(st.integers(1, 3))
     cutoff = draw(st.integers(4, 8 if n < 3 else 6))
-    ops_ = draw(gen.op_list(n, ALPH_F, "fock", 1, 7))
+    ops_ = draw(program(n, ALPH_F, "fock", 1, 7, max_alive=3 if cutoff <= 6 else 2, meta=meta))
     ops_ = [s for s in ops_ if not (s[0] == "Fock" and s[1][0] >= cutoff)] or [["Rgate", [0.3], [0], {}]]
-    return {"n": n, "cutoff": cutoff, "ops": ops_}
+    ops_ = draw(special_squeezing(ops_, fock=True))
+    return {"n": n, "cutoff": cutoff, "ops": ops_, "share": draw(shared(n, ops_))}
 
 
 def check_fock_pm(ctx, case):
-    n, cutoff, ops_ = case["n"], case["cutoff"], case["ops"]
-    labels = gen.labels_of(ops_)
+    cutoff, ops_ = case["cutoff"], case["ops"]
+    labels = gen.labels_of(_plain(ops_)) + _meta_labels(case)
+    run = _runner(case, 2.0)
     states = {}
     for pure in (True, False):
         try:
-            res = sfrun.run("fock", n, ops_, 2.0, cutoff, pure)
+            res = run("fock", cutoff, pure)
         except sfrun.Rejected:
             ctx.note(case, False, labels + ["rejected:fock"])
             return None
         except Exception as exc:  # pylint: disable=broad-except
             return ctx.crash(exc, "fock.pure=%s" % pure)
         states[pure] = res.state
-    labels += ["backend:fock", "pure_rep" if states[True].is_pure else "pure_run_became_mixed", "mixed_rep"]
+    labels += ["backend:fock", "pure_rep" if states[True].is_pure else "pure_run_became_mixed", "mixed_rep", "fock_modes:%d" % _peak(case["n"], ops_)]
     ctx.note(case, nontrivial=_nontrivial(case), labels=labels)
     a = fockref.state_dm(states[True])
     b = fockref.state_dm(states[False])
+    if a.shape != b.shape:
+        return ctx.fail("fock.pure_vs_mixed.mode_count", "pure run returns %d modes, mixed run %d" % (a.ndim // 2, b.ndim // 2))
     d = float(np.max(np.abs(a - b)))
     if d > 1e-9:
         return ctx.fail("fock.pure_vs_mixed.%s" % _culprit_pm(case), "pure and mixed representation differ by %.3g" % d)
@@ -169,13 +392,13 @@ def _culprit_pm(case):
     n, cutoff, ops_ = case["n"], case["cutoff"], case["ops"]
     for k in range(1, len(ops_) + 1):
         try:
-            a = fockref.state_dm(sfrun.run("fock", n, ops_[:k], 2.0, cutoff, True).state)
-            b = fockref.state_dm(sfrun.run("fock", n, ops_[:k], 2.0, cutoff, False).state)
+            a = fockref.state_dm(_runner({"n": n}, 2.0, ops_[:k])("fock", cutoff, True).state)
+            b = fockref.state_dm(_runner({"n": n}, 2.0, ops_[:k])("fock", cutoff, False).state)
             if np.max(np.abs(a - b)) > 1e-9:
                 return ops_[k - 1][0]
         except Exception:  # pylint: disable=broad-except
             return ops_[k - 1][0] + ".exc"
-    return "unknown"
+    return "shared_program" if case.get("share") else "unknown"
 
 
 # ---------------------------------------------------------------------------------------------
@@ -194,10 +417,13 @@ def tail_weight(ref, cutoff):
 
 
 def choose_cutoff(n, ops_, hbar, cutoffs):
-    """smallest cutoff for which every prefix state of the reference has tail weight < 1e-5 (None if none)"""
+    """smallest cutoff for which every prefix state of the reference has tail weight < 1e-5 (None if none); n = number of modes
+    ever allocated, New is a no-op for the reference"""
     refs = []
     ref = refsim.Ref(n, hbar)
     for s in ops_:
+        if s[0] == "New":
+            continue
         spec.ref_run(n, [s], hbar, ref)
         r2 = refsim.Ref(n, hbar)
         r2.mu, r2.V = ref.mu.copy(), ref.V.copy()
@@ -209,50 +435,59 @@ def choose_cutoff(n, ops_, hbar, cutoffs):
 
 
 @st.composite
-def fock_ref_case(draw):
-    n = draw(st.integers(1, 3))
+def fock_ref_case(draw, meta):
+    """meta: the register changes on the way (Del / New).  Decided per shard, not per case: with 30-40 examples per shard a class drawn
+    with probability 1/3 is sometimes nearly absent, and only this sub-check sees how the Fock simulator re-maps modes after a Del"""
+    n = draw(st.sampled_from([3, 2, 3, 1])) if meta else draw(st.integers(1, 3))
     hbar = draw(st.sampled_from([2.0, 2.0, 2.0, 1.0, 0.5]))
     pure = draw(st.booleans())
-    ops_ = draw(gen.op_list(n, ALPH_G + ["sMZgate"], "fock", 1, 6, no_mz_dagger=True))
-    return {"n": n, "hbar": hbar, "pure": pure, "ops": ops_}
+    # F3 (native MZgate vs the first-parameter convention) is fixed: MZgate.H and MZgate(0, x) are ordinary members of the alphabet
+    ops_ = draw(program(n, ALPH_G + ["sMZgate"], "fock", 1, 6, max_alive=3, meta=meta))
+    ops_ = draw(special_squeezing(ops_, fock=True))
+    return {"n": n, "hbar": hbar, "pure": pure, "ops": ops_, "share": draw(shared(n, ops_))}
 
 
 def check_fock_ref(ctx, case):
     from thewalrus.quantum import probabilities
 
     n, hbar, pure, ops_ = case["n"], case["hbar"], case["pure"], case["ops"]
-    labels = gen.labels_of(ops_)
-    cutoffs = [7, 9, 11] if n <= 2 else [7, 9]
-    cutoff = choose_cutoff(n, ops_, hbar, cutoffs)
+    labels = gen.labels_of(_plain(ops_)) + _meta_labels(case)
+    total = _layout(n, ops_)[0]
+    cutoffs = [7, 9, 11] if _peak(n, ops_) <= 2 else [7, 9]
+    cutoff = choose_cutoff(total, ops_, hbar, cutoffs)
     if cutoff is None:
         ctx.note(case, False, ["truncation_dominated"])
         return None
-    ref = spec.ref_run(n, ops_, hbar)
+    ref, alive = _ref(n, ops_, hbar)
+    mu_r, V_r = ref.reduced(alive)
+    k = len(alive)
     try:
-        res = sfrun.run("fock", n, ops_, hbar, cutoff, pure)
+        res = _runner(case, hbar)("fock", cutoff, pure)
     except sfrun.Rejected:
         ctx.note(case, False, labels + ["rejected:fock"])
         return None
     except Exception as exc:  # pylint: disable=broad-except
         return ctx.crash(exc, "fock")
-    rho = fockref.state_dm(res.state)
-    tr = fockref.trace(rho, n)
     labels += ["backend:fock", "pure_rep" if res.state.is_pure else "mixed_rep", "cutoff:%d" % cutoff]
     ctx.note(case, nontrivial=_nontrivial(case), labels=labels)
+    if res.state.num_modes != k:
+        return ctx.fail("fock.mode_count", "fock returns %d modes, the register has %d (%s)" % (res.state.num_modes, k, alive))
+    rho = fockref.state_dm(res.state)
+    tr = fockref.trace(rho, k)
     if tr > 1 + 1e-9:
         return ctx.fail("fock.trace_gt_1", "trace %.12f" % tr)
     tol = 5e-4 + 50 * (1 - tr)
     if tol > 0.05:
         ctx.label("trace_deficit_too_large")
         return None
-    mu, V = fockref.moments(rho, n, hbar)
+    mu, V = fockref.moments(rho, k, hbar)
     sc = hbar / 2
-    dm = float(np.max(np.abs(mu - ref.mu))) / np.sqrt(sc)
-    dv = float(np.max(np.abs(V - ref.V))) / sc
-    if dm > tol * 2 or dv > tol * 4 * _scale(ref.V / sc):
+    dm = float(np.max(np.abs(mu - mu_r))) / np.sqrt(sc)
+    dv = float(np.max(np.abs(V - V_r))) / sc
+    if dm > tol * 2 or dv > tol * 4 * _scale(V_r / sc):
         return ctx.fail("fock_vs_ref.moments.%s" % _culprit_fock(case, cutoff), "fock (cutoff %d, trace %.6f) differs from the reference: |dmu|=%.3g |dV|=%.3g tol=%.2g" % (cutoff, tr, dm, dv, tol))
-    pr = probabilities(ref.mu, ref.V, cutoff, hbar=hbar)
-    pf = fockref.probs(rho, n)
+    pr = probabilities(mu_r, V_r, cutoff, hbar=hbar)
+    pf = fockref.probs(rho, k)
     dp = float(np.max(np.abs(pr - pf)))
     if dp > tol:
         return ctx.fail("fock_vs_ref.probs.%s" % _culprit_fock(case, cutoff), "Fock probabilities differ from thewalrus(reference) by %.3g (tol %.2g)" % (dp, tol))
@@ -263,14 +498,15 @@ def _culprit_fock(case, cutoff):
     n, hbar, pure, ops_ = case["n"], case["hbar"], case["pure"], case["ops"]
     for k in range(1, len(ops_) + 1):
         try:
-            ref = spec.ref_run(n, ops_[:k], hbar)
-            rho = fockref.state_dm(sfrun.run("fock", n, ops_[:k], hbar, cutoff, pure).state)
-            mu, V = fockref.moments(rho, n, hbar)
-            if max(np.max(np.abs(mu - ref.mu)), np.max(np.abs(V - ref.V))) > 0.02 * hbar:
+            ref, alive = _ref(n, ops_[:k], hbar)
+            mu_r, V_r = ref.reduced(alive)
+            rho = fockref.state_dm(_runner({"n": n}, hbar, ops_[:k])("fock", cutoff, pure).state)
+            mu, V = fockref.moments(rho, len(alive), hbar)
+            if max(np.max(np.abs(mu - mu_r)), np.max(np.abs(V - V_r))) > 0.02 * hbar:
                 return ops_[k - 1][0]
         except Exception:  # pylint: disable=broad-except
             return ops_[k - 1][0] + ".exc"
-    return "unknown"
+    return "shared_program" if case.get("share") else "unknown"
 
 
 # ---------------------------------------------------------------------------------------------
@@ -324,30 +560,69 @@ def check_mz(ctx, case):
 # ---------------------------------------------------------------------------------------------
 # bosonic vs fock for non-Gaussian preparations
 # ---------------------------------------------------------------------------------------------
+BF_GATES = ["Rgate", "BSgate", "Dgate", "Sgate", "LossChannel", "MZgate", "S2gate", "Fouriergate", "Xgate"]
+BF_LIMIT = {"Sgate": 0.2, "Dgate": 0.3, "S2gate": 0.15, "Xgate": 0.4}  # keeps the energy inside the cutoff
+
+
+@st.composite
+def bf_gates(draw, modes, lo, hi):
+    gates = draw(gen.op_list(len(modes), BF_GATES, "fock", lo, hi))
+    for g in gates:
+        g[2] = [modes[m] for m in g[2]]
+        if g[0] in BF_LIMIT:
+            g[1][0] = max(-BF_LIMIT[g[0]], min(BF_LIMIT[g[0]], g[1][0]))
+    return gates
+
+
+@st.composite
+def bf_prep(draw, m, n, gkp_ok):
+    """first operation of mode m: Fock(0..2), cat state (amplitude 0 or 0.3..1, any phase, parity 0 / 1 / fractional, complex or
+    real representation), GKP qubit state (epsilon 0.5..1.2; registers of <= 2 modes), Vacuum, Coherent, or nothing"""
+    gkp = "GKP" if gkp_ok else "Catstate"  # one GKP state per program (hundreds of weights each), not on 3 modes (cutoff 9)
+    kind = draw(st.sampled_from([gkp, "Catstate", "Fock", "Catstate", gkp, "Vacuum", "Coherent", "none"]))
+    if kind == "Fock":
+        return ["Fock", [draw(st.integers(0, 2))], [m], {}]
+    if kind == "Catstate":
+        rep = draw(st.sampled_from(["complex", "real", "complex"]))
+        if draw(st.integers(0, 7)) == 0:
+            return ["Catstate", [0.0, draw(gen.angle()), 0], [m], {"kw": {"representation": rep}}]  # amplitude 0: vacuum (even parity only)
+        par = draw(st.sampled_from(["odd", "fractional", "even", "odd", "any"]))  # parity p: theta = p pi
+        par = {"odd": 1, "even": 0}[par] if par in ("odd", "even") else draw(st.sampled_from([0.5, -0.5, 1.5, 0.25])) if par == "fractional" else draw(gen.fl(0.0, 2.0))
+        return ["Catstate", [draw(gen.fl(0.3, 1.0 if n <= 2 else 0.7)), draw(gen.angle()), par], [m], {"kw": {"representation": rep}}]
+    if kind == "GKP":
+        st_ = [draw(st.one_of(st.sampled_from([0.0, gen.PI, gen.PI / 2]), gen.fl(0.0, gen.PI))), draw(gen.angle())]
+        return ["GKP", [], [m], {"kw": {"state": st_, "epsilon": draw(gen.fl(0.5, 1.2))}}]
+    if kind == "Vacuum":
+        return ["Vacuum", [], [m], {}]
+    if kind == "Coherent":
+        return ["Coherent", [draw(gen.fl(0.0, 0.5)), draw(gen.angle())], [m], {}]
+    return None
+
+
 @st.composite
 def bf_case(draw):
-    n = draw(st.integers(1, 2))
-    preps = []
-    for m in range(n):
-        kind = draw(st.sampled_from(["Fock", "Catstate", "Vacuum", "Coherent"]))
-        if kind == "Fock":
-            preps.append(["Fock", [draw(st.integers(0, 2))], [m], {}])
-        elif kind == "Catstate":
-            preps.append(["Catstate", [draw(gen.fl(0.3, 1.0)), draw(st.sampled_from([0.0, 1.0]))], [m], {}])
-        elif kind == "Coherent":
-            preps.append(["Coherent", [draw(gen.fl(0.0, 0.5)), draw(gen.angle())], [m], {}])
-    gates = draw(gen.op_list(n, ["Rgate", "BSgate", "Dgate", "Sgate", "LossChannel", "MZgate"], "fock", 0, 4, no_mz_dagger=True))
-    for g in gates:
-        if g[0] == "Sgate":
-            g[1][0] = max(-0.2, min(0.2, g[1][0]))
-        if g[0] == "Dgate":
-            g[1][0] = min(g[1][0], 0.3)
-    return {"n": n, "ops": preps + gates}
+    """the modes are opened in any order; the first operation of a mode is its preparation (the bosonic simulator accepts
+    non-Gaussian preparations only there), gates on the modes opened so far may come before the next mode is prepared"""
+    n = draw(st.sampled_from([1, 2, 2, 2, 2, 3]))
+    ops_, opened = [], []
+    for m in draw(st.permutations(list(range(n)))):
+        prep = draw(bf_prep(m, n, n <= 2 and not any(s[0] == "GKP" for s in ops_)))
+        if prep is not None:
+            ops_.append(prep)
+        opened.append(m)
+        if len(opened) < n and draw(st.booleans()):
+            ops_ += draw(bf_gates(opened, 1, 2))
+    ops_ += draw(bf_gates(list(range(n)), 0, 4))
+    return {"n": n, "ops": ops_ or [["Vacuum", [], [0], {}]]}
+
+
+def _nongauss(s):
+    return (s[0] == "Fock" and s[1][0] != 0) or (s[0] == "Catstate" and s[1][0] != 0) or s[0] == "GKP"
 
 
 def check_bf(ctx, case):
     n, ops_ = case["n"], case["ops"]
-    cutoff = 12
+    cutoff = 12 if n <= 2 else 9
     labels = gen.labels_of(ops_)
     try:
         rb = sfrun.run("bosonic", n, ops_, 2.0)
@@ -364,29 +639,43 @@ def check_bf(ctx, case):
         return None
     mu_f, V_f = fockref.moments(rho, n, 2.0)
     mu_b, V_b, info = sfrun.moments_of(rb.state, "bosonic", 2.0)
-    nongauss = any(s[0] in ("Fock", "Catstate") and not (s[0] == "Fock" and s[1][0] == 0) for s in ops_)
+    nongauss = any(_nongauss(s) for s in ops_)
+    seen_gate = False
+    for s in ops_:
+        seen_gate = seen_gate or s[0] in gen.GATES or s[0] in gen.CHANNELS
+        if s[0] == "Catstate" and s[1][0] != 0:
+            par = s[1][2] if len(s[1]) > 2 else 0
+            labels.append("cat_even" if par == 0 else "cat_odd" if par == 1 else "cat_parity_fractional")
+            if (s[3] if len(s) > 3 else {}).get("kw", {}).get("representation") == "real":
+                labels.append("cat_real_rep")
+        if _nongauss(s) and seen_gate:
+            labels.append("nongaussian_prep_after_gates")
+        if _nongauss(s) and s[2][0] != 0:
+            labels.append("nongaussian_prep_not_mode0")
+    labels = sorted(set(labels)) + ["modes:%d" % n]
     ctx.note(case, nontrivial=nongauss, labels=labels + ["backend:bosonic", "backend:fock", "nongaussian_prep" if nongauss else "gaussian_only"])
     if sfrun.weights_bad(info):
         return ctx.fail("bosonic.weights", "weights sum to %r" % (info["wsum"],))
-    tol = 2e-2 if nongauss else 2e-3
+    # bosonic Fock states are approximations (quality parameter r = 0.05); GKP states need more of the cutoff; cat states are exact
+    tol = 2e-2 if any(s[0] == "Fock" and s[1][0] != 0 for s in ops_) else 5e-3 if any(s[0] == "GKP" for s in ops_) else 2e-3
     dm = float(np.max(np.abs(mu_f - mu_b)))
     dv = float(np.max(np.abs(V_f - V_b))) / _scale(V_f)
     if dm > tol or dv > tol:
-        return ctx.fail("bosonic_vs_fock.moments", "|dmu|=%.3g |dV|/scale=%.3g (tol %.2g; bosonic Fock/cat preparations are approximations)" % (dm, dv, tol))
+        return ctx.fail("bosonic_vs_fock.moments", "|dmu|=%.3g |dV|/scale=%.3g (tol %.2g; bosonic Fock preparations are approximations)" % (dm, dv, tol))
     return None
 
 
 SUBS = [
     Sub("ps_vs_ref", check=check_ps, strategy=lambda ctx: ps_case(), examples={"quick": 500, "thorough": 5000},
-        shards={"quick": 2, "thorough": 16}, rule="gaussian + bosonic backends vs refsim on 1..4 modes"),
+        shards={"quick": 2, "thorough": 16}, rule="gaussian + bosonic backends vs refsim on 1..4 modes, registers with Del / New"),
     Sub("fock_pure_vs_mixed", check=check_fock_pm, strategy=lambda ctx: fock_pm_case(), examples={"quick": 60, "thorough": 500},
         shards={"quick": 2, "thorough": 16}, rule="same program, Fock simulator pure vs mixed, density tensors equal to 1e-9"),
-    Sub("fock_vs_ref", check=check_fock_ref, strategy=lambda ctx: fock_ref_case(), examples={"quick": 40, "thorough": 400},
-        shards={"quick": 2, "thorough": 16}, rule="Gaussian programs on fock vs refsim moments and thewalrus probabilities"),
+    Sub("fock_vs_ref", check=check_fock_ref, strategy=lambda ctx: fock_ref_case(meta=ctx.shard % 3 == 2), examples={"quick": 34, "thorough": 400},
+        shards={"quick": 3, "thorough": 16}, rule="Gaussian programs on fock vs refsim moments and thewalrus probabilities"),
     Sub("fock_mzgate", check=check_mz, strategy=lambda ctx: mz_case(), examples={"quick": 15, "thorough": 100},
         shards={"quick": 1, "thorough": 4}, rule="MZgate.H / MZgate(0, x) natively on fock vs refsim"),
-    Sub("bosonic_vs_fock", check=check_bf, strategy=lambda ctx: bf_case(), examples={"quick": 25, "thorough": 200},
-        shards={"quick": 1, "thorough": 8}, rule="Fock/cat preparations + Gaussian gates: bosonic vs fock moments (1e-2)"),
+    Sub("bosonic_vs_fock", check=check_bf, strategy=lambda ctx: bf_case(), examples={"quick": 80, "thorough": 400},
+        shards={"quick": 1, "thorough": 8}, rule="Fock/cat/GKP preparations in any mode order + Gaussian gates: bosonic vs fock moments"),
 ]
 
 MANIFEST = {
@@ -394,5 +683,8 @@ MANIFEST = {
     "text": ("Generated programs over the operations shared by the simulators are run on the gaussian, bosonic and fock backends and "
              "compared with refsim (written from the ops.py docstrings) at numerical precision for phase space, to 1e-9 between the "
              "pure and mixed Fock representations, and within a stated truncation tolerance between Fock and reference; every ordered "
-             "target choice, .H, special parameter values, hbar and cutoff are generator axes. Exploration only: <=4 modes (Fock <=3)."),
+             "target choice, .H, special parameter values (zero, multiples of pi/2, tiny squeezing), modes deleted and added in the middle "
+             "of the program, one Program object shared by all engines, hbar and cutoff are generator axes; Fock, cat (any parity, both "
+             "representations) and GKP preparations are compared between the bosonic and the Fock simulator. Exploration only: <=4 modes "
+             "(Fock <=3)."),
 }
